@@ -95,7 +95,20 @@ def make_pushd(props=("C17",), known=()):
 # ------------------------------------------------------------------ pairing
 class FakeBlob(object):
     def __init__(self, text):
-        self.data_stream = _io.BytesIO(text.encode("utf8"))
+        self.text = text
+
+    @property
+    def data_stream(self):
+        return _io.BytesIO(self.text.encode("utf8"))
+
+    def __eq__(self, other):        # GitPython blobs compare by content hash
+        return isinstance(other, FakeBlob) and other.text == self.text
+
+    def __ne__(self, other):
+        return not self.__eq__(other)
+
+    def __hash__(self):
+        return hash(self.text)
 
 
 class FakeEntry(object):
@@ -122,7 +135,9 @@ def make_pairing(nentries, props=("C17",), known=()):
             ba = E.choice("ablob%d" % i, 2) if ka else 0
             bb = E.choice("bblob%d" % i, 2) if kb else 0
             ondisk = E.choice("disk%d" % i, 2) if (remote_kind == 2 and kb == "nb") else 1
-            spec.append((ka, kb, ba, bb, ondisk))
+            # pure rename / mode change: the same blob on both sides
+            same = E.choice("same%d" % i, 2) if (ka and kb and ba and bb) else 0
+            spec.append((ka, kb, ba, bb, ondisk, same))
         ref_base = gf.GitRefIndex if base_kind == 1 else "BASE"
         ref_remote = [("REMOTE"), gf.GitRefIndex, gf.GitRefWorkingTree][remote_kind]
         seen = {}
@@ -130,9 +145,9 @@ def make_pairing(nentries, props=("C17",), known=()):
         def name(kind, i, side):
             return None if kind is None else ("dir/f%d%s.%s" % (i, side, "ipynb" if kind == "nb" else "py"))
         entries = []
-        for i, (ka, kb, ba, bb, ondisk) in enumerate(spec):
+        for i, (ka, kb, ba, bb, ondisk, same) in enumerate(spec):
             entries.append(FakeEntry(name(ka, i, "a"), FakeBlob("A%d" % i) if ba else None,
-                                     name(kb, i, "b"), FakeBlob("B%d" % i) if bb else None))
+                                     name(kb, i, "b"), FakeBlob(("A%d" if same else "B%d") % i) if bb else None))
 
         class Tree(object):
             def __init__(self, tag):
@@ -146,9 +161,17 @@ def make_pairing(nentries, props=("C17",), known=()):
             def __init__(self, ref):
                 self.tree = Tree("tree:%s" % ref)
 
+        ROOT = "/vroot-c17"
+
         class Repo(object):
-            working_tree_dir = "/repo-root"
+            """Stands in for git.Repo: only the directory ROOT is a repository."""
+            working_tree_dir = ROOT
             index = Tree("index")
+
+            def __init__(self, path=None):
+                from git import InvalidGitRepositoryError
+                if path != ROOT:
+                    raise InvalidGitRepositoryError(path)
 
             def commit(self, ref):
                 return Commit(ref)
@@ -161,28 +184,29 @@ def make_pairing(nentries, props=("C17",), known=()):
 
             @staticmethod
             def open(path, *a, **k):
-                i = int(path.split("/f")[1][0])
+                i = int(path.split("/f")[-1][0])
                 if not spec[i][4]:
                     raise IOError("no such file")
                 opened.append((path, fake.cwd))
                 f = _io.StringIO("DISK%d" % i)
                 f.name = path
                 return f
-        saved = (gf.get_repo, gf.apply_possible_filter, gf.io, nu.os, gf.os)
-        gf.get_repo = lambda p: (Repo(), popped)
+        saved = (gf.Repo, gf.apply_possible_filter, gf.io, nu.os, gf.os)
+        gf.Repo = Repo            # the real get_repo walks up from the start directory
         gf.apply_possible_filter = lambda p: p
         gf.io = FakeIO
         gf.BlobWrapper.__bases__ = (_io.StringIO,)
         nu.os = fake
         try:
             got = []
-            for fa, fb in gf.changed_notebooks(ref_base, ref_remote, paths, repo_dir="REPO"):
+            start = os.path.join(ROOT, *popped) if popped else ROOT
+            for fa, fb in gf.changed_notebooks(ref_base, ref_remote, paths, repo_dir=start):
                 got.append((fa, fb))
         finally:
-            gf.get_repo, gf.apply_possible_filter, gf.io, nu.os, gf.os = saved
+            gf.Repo, gf.apply_possible_filter, gf.io, nu.os, gf.os = saved
         # expectation by construction
         want = []
-        for i, (ka, kb, ba, bb, ondisk) in enumerate(spec):
+        for i, (ka, kb, ba, bb, ondisk, same) in enumerate(spec):
             if ka == "other" or kb == "other":
                 continue
 
@@ -193,7 +217,7 @@ def make_pairing(nentries, props=("C17",), known=()):
                     return "DISK%d" % i if ondisk else "MISSING"
                 if not blob:
                     return "MISSING"
-                return ("B%d" if is_remote else "A%d") % i
+                return ("B%d" if (is_remote and not same) else "A%d") % i
             want.append((side(ka, ba, False), side(kb, bb, True)))
 
         def norm(x):
@@ -221,7 +245,8 @@ def make_pairing(nentries, props=("C17",), known=()):
                 d is not None and d[0] == ("index" if base_kind == 1 else "tree:BASE") and d[1] == exp_other,
                 info=repr(d))
         E.check("cwd-restored-after-iteration", json_identical(fake.cwd, init), info="chdir calls %r" % (fake.trace,))
-        E.check("working-tree-files-opened-inside-repo-dir", all(c == "REPO" for _, c in opened), info=repr(opened))
+        E.goal("identical-blobs", any(s_[5] for s_ in spec))
+        E.check("working-tree-files-opened-inside-repo-dir", all(c == start for _, c in opened), info=repr(opened))
     return h, {}
 
 
